@@ -56,8 +56,8 @@ P = {
         note="Collision resistance of the fingerprint and the uncovered generator g are noted, not decided.",
         ref="4.9"),
     "C10": dict(
-        technique="format-table comparison on normalised writer and reader terms (keys, hex/ASCII encodings, scalar codec, fingerprint recipe)",
-        text="Writer dict term equals the frozen released format; reader accesses exactly those keys with inverse decodings; JSON outer encoding; key order/whitespace irrelevant by construction.",
+        technique="format-table comparison on normalised writer and reader terms (keys, hex/ASCII encodings, scalar codec, fingerprint recipe); abstract evaluation of the reader over key-order permutations",
+        text="Writer dict term equals the frozen released format; reader accesses exactly those keys with inverse decodings; JSON outer encoding; key order decided by evaluating the reader on concrete released keys in every key order (quick: generating orders; thorough: all permutations): same restored instance, each field from the value under its own key; whitespace is json.loads' business.",
         note="Old blobs are not replayed; the frozen table is the 0.9 format taken from the pinned tree.",
         ref="4.10"),
     "C11": dict(
@@ -72,7 +72,7 @@ P = {
         ref="4.12", category="proof"),
     "C13": dict(
         technique="term forms of integer-group operations; Ed25519 element-kind closure table by abstract evaluation; ladder induction step; constant folding of negate",
-        text="Group axioms reduced to: integer ops are (a*b)%p and pow(a, e mod q, p) on fresh elements of the same group; value equality methods exist; the Ed25519 class lattice is closed (never leaks an unknown-group element from subgroup operands); negate is multiplication by -1 mod L; ladders satisfy their induction step; the dedicated addition is only reachable with a subgroup point and a scalar in [1,L).",
+        text="Group axioms reduced to: integer ops are (a*b)%p and pow(a, e mod q, p) on fresh elements of the same group; value equality methods exist; the Ed25519 class lattice is closed (never leaks an unknown-group element from subgroup operands); negate is multiplication by -1 mod L; ladders satisfy their induction step; the dedicated addition is only reachable with a subgroup point and a scalar in [1,L); the element encoder behind == is a function of the point, not of its representation (C15 encoder obligations incl. the stored-coordinates-are-residues invariant at every producer).",
         note="Comparison with independent arithmetic on shipped groups is dynamic and not done.",
         ref="4.13"),
     "C14": dict(
@@ -82,13 +82,13 @@ P = {
         ref="4.14"),
     "C15": dict(
         technique="byte-order/width abstract domain over encoder and decoder terms",
-        text="Each encoder/decoder pair agrees on byte order and width and matches the released format; number_to_bytes overflow guard exact; element decoders share C05's guards.",
+        text="Each encoder/decoder pair agrees on byte order and width and matches the released format; number_to_bytes overflow guard exact; element decoders share C05's guards; an encoder that reads a stored coordinate unreduced is accepted only with the representation invariant (every producer of element objects stores residues), checked at each producer.",
         note="Value-level enumeration for small maxval not run; %x semantics trusted.",
         ref="4.15"),
     "C16": dict(
         technique="ownership/effect analysis over all function bodies; closed-world allowlist of external names; term-level input closure",
         text="Sound for all schedules: after import nothing writes an object it did not create except fields of the session's own self; no global/class/module stores; every external name is on a pure allowlist; start()/finish() terms mention only the session's inputs. Hence no shared mutable location exists and outputs are functions of constructor arguments, entropy bytes and the inbound message under any interleaving or threading.",
-        note="Thread-safety of one single session shared by two threads is out of the property; C-level state of hashlib/cryptography trusted. A built-in positive-control fixture must be reported on every run.",
+        note="Thread-safety of one single session shared by two threads is out of the property; C-level state of hashlib/cryptography trusted. A built-in positive-control fixture must be reported on every run. The ownership rules are sufficient conditions, not exact: a hand-written cache in shared mutable state is reported even when it is a correct memo (functools.lru_cache/cache on a pure function is the accepted idiom) - DESIGN 11.9.",
         ref="4.16"),
     "C17": dict(
         technique="normal-form comparison of the two finalize functions with the specification hash terms; call-site slot binding",
